@@ -245,6 +245,43 @@ def add_call_history(rng, case, p_hist=P_HISTORY, p_then=P_THEN):
     return case
 
 
+def kernel_family(rng):
+    """In every run: each vectorizer kind x each of its kernels with a kernel offset of 1 / 2 and kernel normalisation
+    on / off, windows long enough for the offset to leave something (radius 3-4, documents of 6-10 tokens), window
+    normalisation off and on -- so that the (offset, normalize) arithmetic of every kernel is exercised whatever the
+    random stream draws."""
+    out = []
+    for kind in ("token", "ngram", "timed", "multi"):
+        kernels = ["flat", "geometric"] if kind in ("timed", "multi") else ["flat", "harmonic", "geometric"]
+        pool = list(ALPHA[:rng.choice([2, 3])])
+        for kf in kernels:
+            for off, norm in ((1, True), (2, True), (1, False)):
+                kw = {"window_radii": rng.choice([3, 4]), "kernel_functions": kf,
+                      "kernel_args": {"offset": off, "normalize": norm},
+                      "window_orientations": rng.choice(["directional", "after", "before"]),
+                      "normalize_windows": rng.random() < 0.3}
+                if kf == "geometric" and rng.random() < 0.5:
+                    kw["kernel_args"]["power"] = 0.5
+                case = {"kind": kind, "kw": kw}
+                if kind == "multi":
+                    case["docs"] = [[[rng.choice(pool) for _ in range(rng.choice([1, 2, 3]))] for _ in range(rng.choice([5, 6]))]
+                                    for _ in range(2)]
+                else:
+                    case["docs"] = gen_docs_like(rng, kind, pool, 2) + gen_docs_like(rng, kind, pool, 1)
+                    case["docs"][0] = (case["docs"][0] * 4)[:rng.choice([6, 8, 10])] if kind != "timed" else case["docs"][0]
+                    if kind == "timed":
+                        t, d = 0, []
+                        for _ in range(rng.choice([6, 8, 10])):
+                            t += rng.choice([1, 2, 4, 8])
+                            d.append([rng.choice(pool), t])
+                        case["docs"][0] = d
+                        case["unit"], case["shift"] = gen_clock(rng)
+                    if kind == "ngram":
+                        kw["ngram_size"] = 2
+                out.append(case)
+    return out
+
+
 def gen_case(rng, kind=None):
     c = gen_case_plain(rng, kind, clocks=True)
     apply_boundaries(rng, c)
@@ -990,11 +1027,11 @@ def same_result(a, b):
 def run(ctx, replay=None):
     C.run_gate(ctx)
     n = 400 if ctx.quick else 5000
-    n_model = 280 if ctx.quick else 1300
+    n_model = 310 if ctx.quick else 1330
     if replay:
         cases = [replay["case"]]
     else:
-        cases = list(CORPUS) + clock_family(ctx.rng) + [gen_case(ctx.rng) for _ in range(n)]
+        cases = list(CORPUS) + clock_family(ctx.rng) + kernel_family(ctx.rng) + [gen_case(ctx.rng) for _ in range(n)]
     from concurrent.futures import ThreadPoolExecutor
     ex = ThreadPoolExecutor(max_workers=6)
     jit_idx, futs = start_compiled(ex, cases, N_JIT_QUICK if ctx.quick else N_JIT_THOROUGH, JIT_BUDGET_S[ctx.tier])
@@ -1120,7 +1157,8 @@ def run(ctx, replay=None):
                             "unit 1e-9, 1e-6, 1e-4, 1e-3, 1, 1e3, 1e6 and powers of two 2^-30 .. 2^20, offsets 0 / 1e3 / 1e6 units / "
                             "1.6e9 [units]) x power 0.25 .. 1 incl. 0.9, 0.99; in every run one event corpus on all 22 clocks for "
                             "both timed kernels and power 0.5 / 0.9 / 0.99 / default (clock family, matrices also compared with "
-                            "each other); "
+                            "each other); in every run each kind x kernel with kernel offset 1 / 2 x kernel normalisation on / off on "
+                            "documents of 6-10 tokens (kernel family); "
                             "40% of the cases on an estimator with a past (same object fitted on another corpus -- other "
                             "vocabulary size, time scale x1/x16/x1024, runs of removed tokens, other n-grams -- and used for "
                             "transform), 30% followed by transform(X | Y with unseen tokens) judged by the same definition; "
